@@ -202,8 +202,10 @@ def amplify(rng, data, a):
         if rng.random() < 0.5: put(*F['e_phentsize'], rng.choice([0, 0, 1]))
     elif target == 'sh':
         put(*F['e_shnum'], 0)
-        put(shoff + S0['sh_size'][0], S0['sh_size'][1], big)
-        if rng.random() < 0.5: put(*F['e_shentsize'], rng.choice([0, 0, 1]))
+        put(shoff + S0['sh_size'][0], S0['sh_size'][1], rng.choice([big, big, (1 << (8 * S0['sh_size'][1])) - 1 - rng.randrange(256)]))
+        # entry size 0 / 1: every claimed header overlaps the file; entry size huge: every header but #0 lies beyond the end
+        # (cheap to reject one by one — a seeded walk over range(num_sections()) that skipped them never ended)
+        if rng.random() < 0.6: put(*F['e_shentsize'], rng.choice([0, 0, 1, 0xff00, 0xffff, 0xff40]))
         if rng.random() < 0.3: put(*F['e_shoff'], rng.choice([0, 1]))
     else:
         put(*F['e_shstrndx'], 0xffff)
